@@ -308,7 +308,8 @@ pub fn ashr<const NB: usize, const T: usize>(s: &mut impl Src, width: u32) {
     } else {
         W { lo: 0, hi: 0 }
     };
-    s.cover(amount > 0 && amount < width as u64 && bit(wa, width - 1));
+    // (at width 1 no amount lies strictly between 0 and the width: the witness is then a set sign bit alone)
+    s.cover((width == 1 || (amount > 0 && amount < width as u64)) && bit(wa, width - 1));
     same(&d, or(sh, fill));
 }
 
